@@ -96,8 +96,6 @@ def m2(ctx, worker, trace_module, trace_cfg, n_events, make_negatives, shards=16
     ctx.cov["traces_validated_against_impl"] -= len(neg)
     bad = [b for bb in bads for b in bb]
     negids = {b[0] for b in bad if b[0] < 0}
-    ctx.negative_control("%d corrupted events must be rejected by %s" % (len(neg), trace_module),
-                         len(neg) >= 1 and negids == {c["id"] for c in neg})
     byid = {e["id"]: e for e in events}
     nrej = 0
     for (i, clause) in bad:
@@ -109,6 +107,9 @@ def m2(ctx, worker, trace_module, trace_cfg, n_events, make_negatives, shards=16
         ctx.violation("M2", "%s: %s" % (e.get("op"), clause),
                       dict(mode="ev", call=call, variant=e.get("variant", 0), observed=dict(st=e.get("st"), y=e.get("y"))),
                       cls="%s/%s" % (e.get("op"), clause))
+    # judged AFTER the recorded events: corrupted copies of executions that already violate the property prove nothing
+    ctx.negative_control("%d corrupted events must be rejected by %s" % (len(neg), trace_module),
+                         len(neg) >= 1 and negids == {c["id"] for c in neg})
     ctx.lane("M2", events=len(events), rejected=nrej)
     for e in events[len(extra_events):len(extra_events) + 2]:
         ctx.sample(dict(lane="M2", event={k: v for k, v in e.items() if k != "id"}), cap=6)
